@@ -137,7 +137,11 @@ def chk_eq(c):
 
 def chk_derivative(c):
     from pyiga import bspline, spline
-    K = _kv(c)
+    if 'make' in c:            # a uniform knot vector far from the origin with narrow spans (badly scaled, but exactly representable data)
+        pm, a_, b_, n_, mu = c['make']
+        K = bspline.make_knots(pm, a_, b_, n_, mult=mu)
+    else:
+        K = _kv(c)
     if K.p < 1:
         return
     rng = np.random.RandomState(c['seed'])
@@ -145,6 +149,15 @@ def chk_derivative(c):
     S = spline.Spline(K, coeffs)
     D = S.derivative()
     assert D.kv.p == K.p - 1 and D.kv.numdofs == K.numdofs - 1
+    # the coefficients of the derivative spline are d_i = p (c_{i+1} - c_i) / (t_{i+p+1} - t_{i+1}): computed in exact rational arithmetic from
+    # the (double) knots and integer coefficients; the library's doubles agree to a few units in the last place -- on any interval
+    from fractions import Fraction
+    t = [Fraction(float(x)) for x in K.kv]
+    pp = K.p
+    exact = [pp * Fraction(int(coeffs[i + 1] - coeffs[i])) / (t[i + pp + 1] - t[i + 1]) for i in range(K.numdofs - 1)]
+    got_c = np.asarray(D.coeffs, dtype=float)
+    rel = max(abs(Fraction(float(g)) - e) / max(abs(e), Fraction(1)) for g, e in zip(got_c, exact))
+    assert rel <= Fraction(1, 10 ** 13), 'coefficients of Spline.derivative() deviate from p (c_{i+1} - c_i) / (t_{i+p+1} - t_{i+1}) by %.3g (relative)' % float(rel)
     # pointwise derivative through the basis-derivative route (independent of splev's derivative)
     mesh = K.mesh
     pts = np.array([x + t * (y - x) for x, y in zip(mesh[:-1], mesh[1:]) for t in (0.1, 0.5, 0.9)])
@@ -195,6 +208,9 @@ def generate(tier, rng):
         b = a + 10 ** rng.uniform(-3, 3)
         if a < b and (b - a) > 1e-9 * max(abs(a), abs(b)):
             yield 'greville', {'p': int(rng.randint(1, 7)), 'a': float(a), 'b': float(b), 'n': int(rng.randint(1, 12)), 'mult': 1}
+    for k, mk in enumerate(([3, 1000.0, 1000.001, 200, 1], [6, 123456.0, 123456.01, 500, 1], [5, 1e6, 1e6 + 1e-3, 300, 1], [2, -1e6, -1e6 + 1e-2, 400, 2],
+                            [1, 5e4, 5e4 + 1e-4, 50, 1], [4, 0.0, 1.0, 64, 3])):
+        yield 'derivative', {'make': mk, 'seed': 700 + k, 'p': mk[0], 'kv': []}
     pmax = 4 if tier == 'quick' else 6
     for p, kv in kvgen.knotvec_arrays(pmax=pmax):
         case = {'p': p, 'kv': kv}
